@@ -10,6 +10,7 @@ CONSTANTS
     MaxWrites = 2
     MaxLifecycle = 2
     Dedup = FALSE
+    FailCleansUp = TRUE
 INVARIANTS
     TypeOK
     ExactlyOnce
